@@ -94,15 +94,9 @@ def eval_py(expr, nodes, env=None):
 
 
 def for_model(expr):
-    """merge(a, b, c, ...) is documented as the union of its operands: the model evaluates it as (a & b) & c ..."""
-    if not isinstance(expr, list) or not expr or expr[0] in ("node", "var", "model"):
-        return expr
-    if expr[0] == "merge":
-        out = for_model(expr[1])
-        for e in expr[2:]:
-            out = ["&", out, for_model(e)]
-        return out
-    return [expr[0]] + [for_model(e) for e in expr[1:]]
+    """(the driver evaluates the n-ary `merge` tag itself: union of all operands, ONE model built — a fold of `&` would
+    insert concatenation nodes once per step, which is not what `merge(a, b, c)` does)"""
+    return expr
 
 
 def operand_nodes(expr):
